@@ -267,8 +267,10 @@ class MTSPContext(EnvContext):
         self.proj_dynamic_feats = nn.Linear(proj_in_dim, embed_dim, bias=linear_bias)
 
     def _cur_node_embedding(self, embeddings, td):
+        # gather_by_index already removes the step dimension; a bare .squeeze() would also remove
+        # the batch dimension for a batch of size one
         cur_node_embedding = gather_by_index(embeddings, td["current_node"])
-        return cur_node_embedding.squeeze()
+        return cur_node_embedding
 
     def _state_embedding(self, embeddings, td):
         dynamic_feats = torch.stack(
